@@ -16,7 +16,7 @@ from harness import core  # noqa: E402
 
 MODULES = {
     'C01': 'checks.total', 'C07': 'checks.total',
-    'C02': 'checks.flow', 'C06': 'checks.special', 'C13': 'checks.replace', 'C20': 'checks.shellchecks', 'C03': 'checks.flow', 'C04': 'checks.flow', 'C05': 'checks.flow', 'C08': 'checks.flow', 'C12': 'checks.multilang', 'C14': 'checks.shell14', 'C15': 'checks.answer15', 'C17': 'checks.history17', 'C09': 'checks.flow', 'C18': 'checks.flow', 'C19': 'checks.flow', 'C10': 'checks.flow', 'C11': 'checks.flow',
+    'C02': 'checks.flow', 'C06': 'checks.special', 'C13': 'checks.replace', 'C20': 'checks.shellchecks', 'C03': 'checks.flow', 'C04': 'checks.flow', 'C05': 'checks.flow', 'C08': 'checks.flow', 'C12': 'checks.multilang', 'C14': 'checks.shell14', 'C15': 'checks.answer15', 'C16': 'checks.html16', 'C17': 'checks.history17', 'C09': 'checks.flow', 'C18': 'checks.flow', 'C19': 'checks.flow', 'C10': 'checks.flow', 'C11': 'checks.flow',
 }
 
 
